@@ -11,6 +11,8 @@ property oracle   : Mesh::render of random closed solids (rotated / translated s
                     edge-manifold for simplex / hybrid
 partial           : the dual-contouring mesher (per-cell patch tables, minimal-edge rule across octree levels) and the
                     conformity of libfive's own tetrahedral complex across octree levels are covered by the oracle only
+correspondence    : uniform-grid dual contouring (max_err = -1): triangle and vertex counts of the implementation's mesh ==
+                    those of Render/DCGrid.v's mesh on the implementation's own lattice signs
 """
 import os
 import sys
@@ -80,6 +82,51 @@ def run(replay=None):
                              {"program": p.text(), "command": p.lines[cmd - 1], "detail": out[0]})
             if len(samples) < 3:
                 samples.append({"command": p.lines[cmd - 1], "answer": out[0]})
+    # ---- uniform-grid dual contouring: the implementation's mesh against Render/DCGrid.v ----
+    ok_g, log_g = common.build_driver(**common.DRIVERS["gdriver"])
+    gprogs = []
+    for k in range(14 if quick else 300):
+        p = meshgen.closed_solid(rng, f"g{k}", rotate=True)
+        if rng.random() < 0.5:
+            # two small balls at diagonally opposite lattice corners: ambiguous faces, cells with two patches
+            p = meshgen.closed_solid(rng, f"g{k}", rotate=False)
+        level = rng.choice([2, 3, 3, 4])
+        p.q = p.ncmd + 1
+        p.emit(f"dcgrid {p.root} {level} {box} {rng.choice([1, 4, 8])}")
+        gprogs.append(p)
+    gout, gskip = common.run_cases_sharded(exe_h, [p.text() for p in gprogs], shards=8, timeout=900, single_timeout=300)
+    G = parse_out(gout)
+    mcases, mexp = [], []
+    for p in gprogs:
+        l = [x for x in G.get((p.cid, p.q), []) if x.startswith("DG ")]
+        if not l:
+            continue
+        head, pts = l[0].split(" filled=")
+        f = dict(x.split("=", 1) for x in head.split()[1:])
+        if int(f["zero"]) or not pts.strip():
+            continue                                   # a lattice point exactly on the surface: sign is a convention
+        mcases.append(f"case {p.cid}\ndcgrid{pts}\nend\n")
+        mexp.append((p, int(f["tris"]), int(f["verts"]), f["closed"], l[0][:200]))
+    stats["grid_cases"] = len(mcases); stats["grid_equal"] = 0; stats["grid_two_patch_cells"] = 0
+    grid_bad = []
+    if ok_g and mcases:
+        mout, _ = common.run_cases_sharded(os.path.join(common.BUILD, "ocaml", "gdriver"), mcases, timeout=1800, single_timeout=600)
+        M = parse_out(mout)
+        for p, tris, verts, closed, detail in mexp:
+            m = (M.get((p.cid, 1)) or [""])[0]
+            if m == f"GM tris={tris} verts={verts}":
+                stats["grid_equal"] += 1
+            elif m.startswith("GM "):
+                grid_bad.append((p, detail, m))
+            if closed != "1":
+                ck.violation("unbalanced:dc:grid", "dual contouring of a uniform grid (no merging) is not closed",
+                             {"program": p.text(), "detail": detail})
+    if grid_bad:
+        p, detail, m = grid_bad[0]
+        ck.violation("correspondence", f"uniform-grid dual contouring: triangle / vertex counts differ from Render/DCGrid.v ({len(grid_bad)} cases)",
+                     {"program": p.text(), "impl": detail, "model": m, "theorem_or_stage": "correspondence:dcgrid"}, no_input=True)
+    if not ok_g:
+        ck.violation("driver", "extracted grid model does not build", {"log": log_g[-3000:]}, no_input=True)
     if "FAILED" in str(rep.get("TetTable_gen.v", "")):
         ck.violation("translator", "the marching-tetrahedra table can no longer be read: " + rep["TetTable_gen.v"],
                      {"theorem_or_file": "Gen/TetTable_gen.v"}, no_input=True)
@@ -87,7 +134,8 @@ def run(replay=None):
         ck.violation("proof", "Properties_C03.v no longer checks", {"theorem_or_file": proof["file"],
                      "log": proof["log"][-3000:]}, no_input=True)
     ck.coverage.update(stats)
-    ck.coverage["evaluations"] = stats["renders"]
+    ck.coverage["evaluations"] = stats["renders"] + stats.get("grid_cases", 0)
+    ck.coverage["traces_validated_against_impl"] = stats.get("grid_equal", 0)
     ck.coverage["translators"] = rep
     ck.coverage["samples"] = samples
     ck.coverage["rule"] = "closed CSG solids (60% of primitives rotated) x 3 algorithms x workers {1,2,3,4,8,16} x min_feature x max_err {1e-8, 1e-3, -1 = no merging}"
